@@ -1070,67 +1070,6 @@ structure ValidND (m : ND α) (G : List Nat → α) : Prop where
   grids : List.Forall₂ (fun g s => GoodGrid g ∧ g.length = s) m.grid m.shape
   get_ok : ∀ ix, List.Forall₂ (· < ·) ix m.shape → m.get ix = .ok (G ix)
 
-theorem triples_shape : ∀ (grid : List (List α)) (shape : List Nat) (pt : List α),
-    grid.length = shape.length → grid.length = pt.length →
-    (triples grid pt shape).map (·.2.2) = shape := by
-  intro grid
-  induction grid with
-  | nil => intro shape pt h1 _; cases shape with
-    | nil => simp [triples]
-    | cons _ _ => simp at h1
-  | cons g gs ih =>
-    intro shape pt h1 h2
-    cases shape with
-    | nil => simp at h1
-    | cons s ss =>
-      cases pt with
-      | nil => simp at h2
-      | cons p ps =>
-        simp only [triples, List.map_cons, List.cons.injEq, true_and]
-        exact ih ss ps (by simpa using h1) (by simpa using h2)
-
-/-- `InterpND::linear` on a valid interpolator and an in-range point: the full sequential
-interpolation over all dimensions (the grid-coincident shortcuts of the code give the same value) -/
-theorem linearN_ok (m : ND α) (G : List Nat → α) (pt : List α) (hv : ValidND m G)
-    (hp : List.Forall₂ InAxis m.grid pt) :
-    linearN m pt =
-      .ok (ndValRev G ((triples m.grid pt m.shape).map (fun t => (t.1, t.2.1))).reverse []) := by
-  obtain ⟨plan, cells, h1, h2, h3, h4, h5, h6⟩ := plan_cells_spec m.grid m.shape pt hv.grids hp
-  have hlen : m.grid.length = m.shape.length := hv.grids.length_eq
-  have hlen2 : m.grid.length = pt.length := hp.length_eq
-  have heval : ndEvalRev m.get cells.reverse [] =
-      .ok (ndValRev G ((triples m.grid pt m.shape).map (fun t => (t.1, t.2.1))).reverse []) := by
-    have := ndEvalRev_eq m.get G cells.reverse (triples m.grid pt m.shape).reverse
-      (List.rel_reverse h3) [] [] List.Forall₂.nil (by
-        intro ix hix
-        apply hv.get_ok
-        rw [List.map_reverse, List.reverse_reverse, List.append_nil,
-          triples_shape m.grid m.shape pt hlen hlen2] at hix
-        exact hix)
-    rw [this, List.map_reverse]
-  unfold linearN
-  simp only
-  rw [← hlen, h1]
-  simp only [Res.bind]
-  by_cases hvl : ndViewLen plan m.shape = 1
-  · rw [if_pos hvl]
-    have := allFixed_eval plan cells h5 (viewLen_one plan m.shape h6 hvl) m.get []
-    rw [List.append_nil] at this
-    rw [← this, heval]
-  · rw [if_neg hvl, h2]
-    simp only [h4, Bool.not_true, Bool.false_eq_true, if_false]
-    have hnan : ndAnyNaN m.get cells.reverse [] = .ok false :=
-      ndAnyNaN_eq m.get G cells.reverse (triples m.grid pt m.shape).reverse
-        (List.rel_reverse h3) [] [] List.Forall₂.nil (by
-          intro ix hix
-          apply hv.get_ok
-          rw [List.map_reverse, List.reverse_reverse, List.append_nil,
-            triples_shape m.grid m.shape pt hlen hlen2] at hix
-          exact hix)
-    rw [hnan]
-    simp only [Res.bind, Bool.false_eq_true, if_false]
-    exact heval
-
 theorem forall₂_mem_right {β γ : Type} {R : β → γ → Prop} {l₁ : List β} {l₂ : List γ}
     (h : List.Forall₂ R l₁ l₂) {b : γ} (hb : b ∈ l₂) : ∃ a ∈ l₁, R a b := by
   induction h with
@@ -1176,6 +1115,69 @@ theorem ValidND.ndim_eq {m : ND α} {G : List Nat → α} (hv : ValidND m G) : m
       omega
     have := prod_ge_two m.shape hall he
     rw [if_neg (by omega)]
+
+theorem triples_shape : ∀ (grid : List (List α)) (shape : List Nat) (pt : List α),
+    grid.length = shape.length → grid.length = pt.length →
+    (triples grid pt shape).map (·.2.2) = shape := by
+  intro grid
+  induction grid with
+  | nil => intro shape pt h1 _; cases shape with
+    | nil => simp [triples]
+    | cons _ _ => simp at h1
+  | cons g gs ih =>
+    intro shape pt h1 h2
+    cases shape with
+    | nil => simp at h1
+    | cons s ss =>
+      cases pt with
+      | nil => simp at h2
+      | cons p ps =>
+        simp only [triples, List.map_cons, List.cons.injEq, true_and]
+        exact ih ss ps (by simpa using h1) (by simpa using h2)
+
+/-- `InterpND::linear` on a valid interpolator and an in-range point: the full sequential
+interpolation over all dimensions (the grid-coincident shortcuts of the code give the same value) -/
+theorem linearN_ok (m : ND α) (G : List Nat → α) (pt : List α) (hv : ValidND m G)
+    (hp : List.Forall₂ InAxis m.grid pt) :
+    linearN m pt =
+      .ok (ndValRev G ((triples m.grid pt m.shape).map (fun t => (t.1, t.2.1))).reverse []) := by
+  obtain ⟨plan, cells, h1, h2, h3, h4, h5, h6⟩ := plan_cells_spec m.grid m.shape pt hv.grids hp
+  have hlen : m.grid.length = m.shape.length := hv.grids.length_eq
+  have hlen2 : m.grid.length = pt.length := hp.length_eq
+  have heval : ndEvalRev m.get cells.reverse [] =
+      .ok (ndValRev G ((triples m.grid pt m.shape).map (fun t => (t.1, t.2.1))).reverse []) := by
+    have := ndEvalRev_eq m.get G cells.reverse (triples m.grid pt m.shape).reverse
+      (List.rel_reverse h3) [] [] List.Forall₂.nil (by
+        intro ix hix
+        apply hv.get_ok
+        rw [List.map_reverse, List.reverse_reverse, List.append_nil,
+          triples_shape m.grid m.shape pt hlen hlen2] at hix
+        exact hix)
+    rw [this, List.map_reverse]
+  have hplen : plan.length = m.shape.length := h6.length_eq
+  unfold linearN
+  simp only
+  rw [hv.ndim_eq, ← hlen, h1]
+  simp only [Res.bind]
+  by_cases hvl : ndViewLen plan m.shape = 1
+  · have hz : m.grid.length - plan.length = 0 := by omega
+    rw [if_pos hvl, hz, List.replicate_zero, List.append_nil]
+    have := allFixed_eval plan cells h5 (viewLen_one plan m.shape h6 hvl) m.get []
+    rw [List.append_nil] at this
+    rw [← this, heval]
+  · rw [if_neg hvl, h2]
+    simp only [h4, Bool.not_true, Bool.false_eq_true, if_false]
+    have hnan : ndAnyNaN m.get cells.reverse [] = .ok false :=
+      ndAnyNaN_eq m.get G cells.reverse (triples m.grid pt m.shape).reverse
+        (List.rel_reverse h3) [] [] List.Forall₂.nil (by
+          intro ix hix
+          apply hv.get_ok
+          rw [List.map_reverse, List.reverse_reverse, List.append_nil,
+            triples_shape m.grid m.shape pt hlen hlen2] at hix
+          exact hix)
+    rw [hnan]
+    simp only [Res.bind, Bool.false_eq_true, if_false]
+    exact heval
 
 theorem ndInGrid_ok : ∀ (grid : List (List α)) (pt : List α), List.Forall₂ InAxis grid pt →
     ndInGrid grid.length grid pt = .ok () := by
@@ -1802,18 +1804,19 @@ theorem fillGrid_pure (u : α → α → α) (ys : List α) : ∀ (xs : List α)
   | cons x xs ih => simp [fillGrid, fillRow_pure (u x) ys, ih, Res.bind]
 
 /-- the sweep over a model that always answers: a value, at most the start value and at most every
-swept rate -/
+swept rate, and attained: it is the start value or one of the swept rates -/
 theorem findMinEnergyRateFrom_spec (m : PModel α) (hm : ∀ s su g gu, ∃ r u, m s su g gu = .ok (r, u)) :
     ∀ (is : List Nat) (acc : α), ∃ v, findMinEnergyRateFrom m is acc = .ok v ∧ v ≤ acc ∧
-      ∀ i ∈ is, ∀ r u, m (ofNat i) .milesPerHour (zero : α) .percent = .ok (r, u) → v ≤ r := by
+      (∀ i ∈ is, ∀ r u, m (ofNat i) .milesPerHour (zero : α) .percent = .ok (r, u) → v ≤ r) ∧
+      (v = acc ∨ ∃ i ∈ is, ∃ u, m (ofNat i) .milesPerHour (zero : α) .percent = .ok (v, u)) := by
   intro is
   induction is with
-  | nil => intro acc; exact ⟨acc, rfl, le_refl _, by intro i hi; cases hi⟩
+  | nil => intro acc; exact ⟨acc, rfl, le_refl _, (by intro i hi; cases hi), Or.inl rfl⟩
   | cons i is ih =>
     intro acc
     obtain ⟨r, u, hr⟩ := hm (ofNat i) .milesPerHour (zero : α) .percent
-    obtain ⟨v, hv, hle, hall⟩ := ih (if r < acc then r else acc)
-    refine ⟨v, ?_, ?_, ?_⟩
+    obtain ⟨v, hv, hle, hall, hatt⟩ := ih (if r < acc then r else acc)
+    refine ⟨v, ?_, ?_, ?_, ?_⟩
     · simp only [findMinEnergyRateFrom, hr]; exact hv
     · split at hle
       · exact le_trans hle (le_of_lt ‹_›)
@@ -1826,6 +1829,11 @@ theorem findMinEnergyRateFrom_spec (m : PModel α) (hm : ∀ s su g gu, ∃ r u,
         · exact hle
         · exact le_trans hle (not_lt.mp ‹_›)
       · exact hall j hj' r' u' hr'
+    · rcases hatt with h | ⟨j, hj, u', hj'⟩
+      · split at h
+        · right; exact ⟨i, List.mem_cons_self, u, by rw [h]; exact hr⟩
+        · left; exact h
+      · right; exact ⟨j, List.mem_cons_of_mem _ hj, u', hj'⟩
 
 theorem smartcorePredict_total (rf : α → α → α) (su : SpeedUnit) (gu : GradeUnit) (ru : EnergyRateUnit) :
     ∀ s qsu g qgu, ∃ r u, smartcorePredict rf su gu ru s qsu g qgu = .ok (r, u) :=
@@ -1856,7 +1864,7 @@ theorem load_interpolate_smartcore_eq (rf : α → α → α) (su : SpeedUnit) (
           .ok { model := m.predict, speedUnit := su, gradeUnit := gu, energyRateUnit := ru,
                 idealEnergyRate := idealRate,
                 realWorldEnergyAdjustment := match adj with | some a => a | none => one } := by
-  obtain ⟨v, hv, _, _⟩ := findMinEnergyRateFrom_spec (smartcorePredict rf su gu ru)
+  obtain ⟨v, hv, _, _, _⟩ := findMinEnergyRateFrom_spec (smartcorePredict rf su gu ru)
     (smartcorePredict_total rf su gu ru) sweepSpeeds f64Max
   obtain ⟨xs, hx⟩ := linspace_ok s0 s1 sb
   obtain ⟨ys, hy⟩ := linspace_ok g0 g1 gb
@@ -1904,6 +1912,511 @@ theorem load_onnx (rf : α → α → α) (fileOk : Bool) : ∀ (mt : ModelType 
     intro h su gu ru ideal adj
     unfold loadPredictionModel
     simp only [ih h su gu ru none none, Res.err_bind]
+
+/-! ### the validated entry point never panics: 0-D, 1-D and N-D (one-point axes and single values included) -/
+
+theorem idx_head {β : Type} (a : β) (t : List β) : idx (a :: t) 0 = .ok a := rfl
+
+theorem Res.Graceful.ok {β : Type} (v : β) : (Res.ok v).Graceful := Or.inl ⟨v, rfl⟩
+theorem Res.Graceful.err {β : Type} (e : Err) : (Res.err e : Res β).Graceful := Or.inr ⟨e, rfl⟩
+
+/-- an in-range point that is not a grid value: the axis has at least two points -/
+theorem two_points_of_not_on_grid {g : List α} {p : α} (hs : strictlyIncreasing g = true) (hin : InAxis g p)
+    (hnone : position (fun v => eqv v p) g = none) : GoodGrid g := by
+  refine ⟨hs, ?_⟩
+  obtain ⟨lo, hi, h0, hl, h1, h2⟩ := hin
+  by_contra hlen
+  have h0' : 0 < g.length := by
+    by_contra hn
+    rw [List.getElem?_eq_none (by omega)] at h0; cases h0
+  have hlen1 : g.length = 1 := by omega
+  rw [getLast?_eq_getElem?, hlen1] at hl
+  simp only [Nat.sub_self] at hl
+  rw [h0] at hl; cases hl
+  have hp : p = lo := le_antisymm h2 h1
+  have := position_none _ g hnone 0 lo h0
+  rw [eqv_false_iff] at this
+  exact this hp.symm
+
+theorem interpolate_d1_graceful (x f : List α) (hv : validate1 x f = .ok ()) (pt : List α) (s : Strategy) :
+    (Interpolator.interpolate (.d1 x f) pt s).Graceful := by
+  obtain ⟨hs, hf⟩ := validate1_ok hv
+  have hxne : x ≠ [] := by
+    intro h
+    unfold validate1 at hv
+    rw [h] at hv
+    simp at hv
+  match pt with
+  | [p] =>
+    by_cases h : InAxis x p
+    · -- in range
+      have hpos : ∀ i, position (fun v => eqv v p) x = some i → ∃ v, idx f i = .ok v := by
+        intro i hi
+        obtain ⟨v, hv', _⟩ := position_some _ x i hi
+        have : i < f.length := by
+          rw [← hf]
+          by_contra hn
+          rw [List.getElem?_eq_none (by omega)] at hv'; cases hv'
+        exact ⟨_, idx1_ok this⟩
+      have hcell : position (fun v => eqv v p) x = none →
+          ∃ l d, findNearestIndex x p = .ok l ∧ cellOf x p = .ok (l, d) ∧ l + 1 < f.length := by
+        intro hn
+        have gg := two_points_of_not_on_grid hs h hn
+        obtain ⟨lo, hi, h0, hl, h1, h2⟩ := h
+        obtain ⟨l, a, b, hfn, ha, hb, _⟩ := findNearestIndex_spec x p lo hi gg h0 hl h1 h2
+        refine ⟨l, (p - a) / (b - a), hfn, ?_, ?_⟩
+        · simp [cellOf, hfn, Res.bind, idx_eq ha, idx_eq hb]
+        · rw [← hf]
+          by_contra hn'
+          rw [List.getElem?_eq_none (by omega)] at hb; cases hb
+      have hval : Interpolator.validateInputs (.d1 x f) [p] = .ok () := by
+        simp [Interpolator.validateInputs, Interpolator.ndim, idx, Res.bind, inAxis_true h]
+      unfold Interpolator.interpolate
+      rw [hval, Res.ok_bind]
+      cases s with
+      | none => exact Res.Graceful.err _
+      | linear =>
+        simp only [idx_head, Res.ok_bind, linear1]
+        cases hp : position (fun v => eqv v p) x with
+        | some i => obtain ⟨v, hv'⟩ := hpos i hp; simp only [hv']; exact Res.Graceful.ok _
+        | none =>
+          obtain ⟨l, d, _, hc, hl⟩ := hcell hp
+          simp only [hc, Res.ok_bind, idx1_ok (show l < f.length by omega), idx1_ok hl]
+          exact Res.Graceful.ok _
+      | leftNearest =>
+        simp only [idx_head, Res.ok_bind, leftNearest1]
+        cases hp : position (fun v => eqv v p) x with
+        | some i => obtain ⟨v, hv'⟩ := hpos i hp; simp only [hv']; exact Res.Graceful.ok _
+        | none =>
+          obtain ⟨l, d, hfn, _, hl⟩ := hcell hp
+          simp only [hfn, Res.ok_bind, idx1_ok (show l < f.length by omega)]
+          exact Res.Graceful.ok _
+      | rightNearest =>
+        simp only [idx_head, Res.ok_bind, rightNearest1]
+        cases hp : position (fun v => eqv v p) x with
+        | some i => obtain ⟨v, hv'⟩ := hpos i hp; simp only [hv']; exact Res.Graceful.ok _
+        | none =>
+          obtain ⟨l, d, hfn, _, hl⟩ := hcell hp
+          simp only [hfn, Res.ok_bind, idx1_ok hl]
+          exact Res.Graceful.ok _
+      | nearest =>
+        simp only [idx_head, Res.ok_bind, nearest1]
+        cases hp : position (fun v => eqv v p) x with
+        | some i => obtain ⟨v, hv'⟩ := hpos i hp; simp only [hv']; exact Res.Graceful.ok _
+        | none =>
+          obtain ⟨l, d, _, hc, hl⟩ := hcell hp
+          simp only [hc, Res.ok_bind]
+          split
+          · rw [idx1_ok (show l < f.length by omega)]; exact Res.Graceful.ok _
+          · rw [idx1_ok hl]; exact Res.Graceful.ok _
+    · rw [interpolate_d1_out x f p s hxne h]; exact Res.Graceful.err _
+  | [] => exact Or.inr ⟨.pointLen, by simp [Interpolator.interpolate, Interpolator.validateInputs, Interpolator.ndim, Res.bind]⟩
+  | _ :: _ :: _ =>
+    exact Or.inr ⟨.pointLen, by simp [Interpolator.interpolate, Interpolator.validateInputs, Interpolator.ndim, Res.bind]⟩
+
+/-- a model cell stays inside its dimension's extent -/
+def CellOk (c : Cell α) (s : Nat) : Prop :=
+  match c with
+  | .fixed pos => pos < s
+  | .cell l _ => l + 1 < s
+
+theorem ndEvalRev_graceful (get : List Nat → Res α) :
+    ∀ (rc : List (Cell α)) (rsh : List Nat), List.Forall₂ CellOk rc rsh →
+    ∀ (suffix ssh : List Nat), List.Forall₂ (· < ·) suffix ssh →
+      (∀ ix, List.Forall₂ (· < ·) ix (rsh.reverse ++ ssh) → ∃ v, get ix = .ok v) →
+      ∃ v, ndEvalRev get rc suffix = .ok v := by
+  intro rc rsh h
+  induction h with
+  | nil =>
+    intro suffix ssh hs hget
+    simpa [ndEvalRev] using hget suffix (by simpa using hs)
+  | @cons c s rc' rsh' hcs _ ih =>
+    intro suffix ssh hs hget
+    have hget' : ∀ ix, List.Forall₂ (· < ·) ix (rsh'.reverse ++ (s :: ssh)) → ∃ v, get ix = .ok v := by
+      intro ix hix
+      apply hget
+      simpa [List.reverse_cons, List.append_assoc] using hix
+    cases c with
+    | fixed pos =>
+      simp only [CellOk] at hcs
+      simp only [ndEvalRev]
+      exact ih (pos :: suffix) (s :: ssh) (List.Forall₂.cons hcs hs) hget'
+    | cell l d =>
+      simp only [CellOk] at hcs
+      obtain ⟨a, ha⟩ := ih (l :: suffix) (s :: ssh) (List.Forall₂.cons (by omega) hs) hget'
+      obtain ⟨b, hb⟩ := ih ((l + 1) :: suffix) (s :: ssh) (List.Forall₂.cons hcs hs) hget'
+      simp only [ndEvalRev, ha, hb, Res.ok_bind]
+      exact ⟨_, rfl⟩
+
+theorem ndAnyNaN_graceful (get : List Nat → Res α) :
+    ∀ (rc : List (Cell α)) (rsh : List Nat), List.Forall₂ CellOk rc rsh →
+    ∀ (suffix ssh : List Nat), List.Forall₂ (· < ·) suffix ssh →
+      (∀ ix, List.Forall₂ (· < ·) ix (rsh.reverse ++ ssh) → ∃ v, get ix = .ok v) →
+      ∃ b, ndAnyNaN get rc suffix = .ok b := by
+  intro rc rsh h
+  induction h with
+  | nil =>
+    intro suffix ssh hs hget
+    obtain ⟨v, hv⟩ := hget suffix (by simpa using hs)
+    simp only [ndAnyNaN, hv, Res.ok_bind]
+    exact ⟨_, rfl⟩
+  | @cons c s rc' rsh' hcs _ ih =>
+    intro suffix ssh hs hget
+    have hget' : ∀ ix, List.Forall₂ (· < ·) ix (rsh'.reverse ++ (s :: ssh)) → ∃ v, get ix = .ok v := by
+      intro ix hix
+      apply hget
+      simpa [List.reverse_cons, List.append_assoc] using hix
+    cases c with
+    | fixed pos =>
+      simp only [CellOk] at hcs
+      simp only [ndAnyNaN]
+      exact ih (pos :: suffix) (s :: ssh) (List.Forall₂.cons hcs hs) hget'
+    | cell l d =>
+      simp only [CellOk] at hcs
+      obtain ⟨a, ha⟩ := ih (l :: suffix) (s :: ssh) (List.Forall₂.cons (by omega) hs) hget'
+      obtain ⟨b, hb⟩ := ih ((l + 1) :: suffix) (s :: ssh) (List.Forall₂.cons hcs hs) hget'
+      simp only [ndAnyNaN, ha, hb, Res.ok_bind]
+      exact ⟨_, rfl⟩
+
+/-- a plan entry against the extent of its dimension: a fixed index inside it, or a free dimension with
+at least two points -/
+def PlanShape (pl : Plan α) (s : Nat) : Prop :=
+  (∃ pos, pl = .fixed pos ∧ pos < s) ∨ (∃ g p, pl = .free g p ∧ 2 ≤ s)
+
+/-- an axis `InterpND::new` accepts: not empty, strictly increasing, as long as the table's extent -/
+def AxisOk (g : List α) (s : Nat) : Prop := g ≠ [] ∧ strictlyIncreasing g = true ∧ g.length = s
+
+theorem plan_cells_graceful : ∀ (grid : List (List α)) (shape : List Nat) (pt : List α),
+    List.Forall₂ AxisOk grid shape → List.Forall₂ InAxis grid pt →
+    ∃ plan cells, ndPlan grid.length grid pt = .ok plan ∧ ndCells plan = .ok cells ∧
+      ndSliceOk cells shape = true ∧ List.Forall₂ CellOk cells shape ∧ List.Forall₂ PlanShape plan shape := by
+  intro grid shape pt hgs
+  induction hgs generalizing pt with
+  | nil => intro _; exact ⟨[], [], rfl, rfl, rfl, List.Forall₂.nil, List.Forall₂.nil⟩
+  | @cons g s gs ss hg _ ih =>
+    intro hp
+    cases hp with
+    | @cons _ p _ ps hin hps =>
+      obtain ⟨plan, cells, h1, h2, h3, h4, h5⟩ := ih ps hps
+      obtain ⟨hne, hsi, hlen⟩ := hg
+      have hemp : g.isEmpty = false := by
+        cases g with
+        | nil => exact absurd rfl hne
+        | cons _ _ => rfl
+      cases hpos : position (fun v => eqv v p) g with
+      | some pos =>
+        obtain ⟨v, hv, _⟩ := position_some _ g pos hpos
+        have hposlt : pos < s := by
+          rw [← hlen]
+          by_contra hn
+          rw [List.getElem?_eq_none (by omega)] at hv; cases hv
+        refine ⟨.fixed pos :: plan, .fixed pos :: cells, ?_, ?_, ?_, ?_, ?_⟩
+        · simp [ndPlan, hemp, hpos, Res.bind, h1]
+        · simp [ndCells, h2, Res.bind]
+        · simp only [ndSliceOk, h3, Bool.and_true, decide_eq_true_eq]; exact hposlt
+        · exact List.Forall₂.cons hposlt h4
+        · exact List.Forall₂.cons (Or.inl ⟨pos, rfl, hposlt⟩) h5
+      | none =>
+        have gg := two_points_of_not_on_grid hsi hin hpos
+        obtain ⟨l, d, hc, sel⟩ := sel_of_inAxis gg hin
+        have hl := sel.lt_length
+        refine ⟨.free g (some p) :: plan, .cell l d :: cells, ?_, ?_, ?_, ?_, ?_⟩
+        · simp [ndPlan, hemp, hpos, Res.bind, h1]
+        · simp [ndCells, h2, hc, Res.bind]
+        · simp only [ndSliceOk, h3, Bool.and_true, decide_eq_true_eq]; omega
+        · exact List.Forall₂.cons (show l + 1 < s by omega) h4
+        · exact List.Forall₂.cons (Or.inr ⟨g, some p, rfl, by have := gg.2; omega⟩) h5
+
+theorem viewLen_one_fixed : ∀ (plan : List (Plan α)) (shape : List Nat), List.Forall₂ PlanShape plan shape →
+    ndViewLen plan shape = 1 → List.Forall₂ (· < ·) (ndFirstIndex plan) shape := by
+  intro plan shape h
+  induction h with
+  | nil => intro _; exact List.Forall₂.nil
+  | @cons pl s plan' shape' hps _ ih =>
+    intro hv
+    rcases hps with ⟨pos, rfl, hpos⟩ | ⟨g, p, rfl, h2⟩
+    · simp only [ndViewLen] at hv
+      exact List.Forall₂.cons hpos (ih hv)
+    · simp only [ndViewLen] at hv
+      have := Nat.eq_one_of_mul_eq_one_right hv
+      omega
+
+/-- `InterpND::linear` on accepted axes and an in-range point: a value, or the NaN error — never a panic -/
+theorem linearN_graceful (m : ND α) (pt : List α) (hn : m.ndim = m.shape.length)
+    (hg : List.Forall₂ AxisOk m.grid m.shape)
+    (hget : ∀ ix, List.Forall₂ (· < ·) ix m.shape → ∃ v, m.get ix = .ok v)
+    (hp : List.Forall₂ InAxis m.grid pt) : (linearN m pt).Graceful := by
+  obtain ⟨plan, cells, h1, h2, h3, h4, h5⟩ := plan_cells_graceful m.grid m.shape pt hg hp
+  have hlen : m.grid.length = m.shape.length := hg.length_eq
+  have hplen : plan.length = m.shape.length := h5.length_eq
+  unfold linearN
+  simp only
+  rw [hn, ← hlen, h1, Res.ok_bind]
+  by_cases hvl : ndViewLen plan m.shape = 1
+  · have hz : m.grid.length - plan.length = 0 := by omega
+    rw [if_pos hvl, hz, List.replicate_zero, List.append_nil]
+    obtain ⟨v, hv⟩ := hget _ (viewLen_one_fixed plan m.shape h5 hvl)
+    rw [hv]; exact Res.Graceful.ok _
+  · rw [if_neg hvl, h2, Res.ok_bind]
+    simp only [h3, Bool.not_true, Bool.false_eq_true, if_false]
+    have hget' : ∀ ix, List.Forall₂ (· < ·) ix (m.shape.reverse.reverse ++ []) → ∃ v, m.get ix = .ok v := by
+      intro ix hix
+      apply hget
+      simpa using hix
+    obtain ⟨b, hb⟩ := ndAnyNaN_graceful m.get cells.reverse m.shape.reverse (List.rel_reverse h4) [] []
+      List.Forall₂.nil hget'
+    obtain ⟨v, hv⟩ := ndEvalRev_graceful m.get cells.reverse m.shape.reverse (List.rel_reverse h4) [] []
+      List.Forall₂.nil hget'
+    rw [hb, Res.ok_bind]
+    cases b with
+    | true => exact Res.Graceful.err _
+    | false => simp only [Bool.false_eq_true, if_false, hv]; exact Res.Graceful.ok _
+
+theorem forall₂_and_left {β γ : Type} {R : β → γ → Prop} {P : β → Prop} {l₁ : List β} {l₂ : List γ}
+    (h : List.Forall₂ R l₁ l₂) (hp : ∀ a ∈ l₁, P a) : List.Forall₂ (fun a b => P a ∧ R a b) l₁ l₂ := by
+  induction h with
+  | nil => exact List.Forall₂.nil
+  | @cons a b l₁' l₂' hab _ ih =>
+    exact List.Forall₂.cons ⟨hp a (List.mem_cons_self), hab⟩
+      (ih (fun c hc => hp c (List.mem_cons_of_mem _ hc)))
+
+theorem ndCheckNonEmpty_spec : ∀ (n : Nat) (grid : List (List α)), ndCheckNonEmpty n grid = .ok () →
+    ∀ g ∈ grid.take n, g ≠ [] := by
+  intro n
+  induction n with
+  | zero => intro grid _ g hg; simp at hg
+  | succ n ih =>
+    intro grid h g hg
+    cases grid with
+    | nil => simp at hg
+    | cons g0 gs =>
+      simp only [ndCheckNonEmpty] at h
+      by_cases he : g0.isEmpty = true
+      · rw [if_pos he] at h; cases h
+      · rw [if_neg he] at h
+        simp only [List.take_succ_cons, List.mem_cons] at hg
+        rcases hg with rfl | hg
+        · intro hnil; apply he; rw [hnil]; rfl
+        · exact ih gs h g hg
+
+theorem prod_one_in_range : ∀ (shape : List Nat), prod shape = 1 →
+    List.Forall₂ (· < ·) (List.replicate shape.length 0) shape := by
+  intro shape
+  induction shape with
+  | nil => intro _; exact List.Forall₂.nil
+  | cons s ss ih =>
+    intro h
+    simp only [prod] at h
+    have h1 : s = 1 := Nat.eq_one_of_mul_eq_one_right h
+    have h2 : prod ss = 1 := Nat.eq_one_of_mul_eq_one_left h
+    simp only [List.length_cons, List.replicate_succ]
+    exact List.Forall₂.cons (by omega) (ih h2)
+
+/-- what `InterpND::new` establishes when the interpolator has a dimension: exactly one accepted axis per
+dimension of the table -/
+theorem validateN_axes (m : ND α) (hv : validateN m = .ok ()) (hpos : 0 < m.ndim) :
+    m.ndim = m.shape.length ∧ List.Forall₂ AxisOk m.grid m.shape := by
+  have hn : m.ndim = m.shape.length := by
+    unfold ND.ndim at hpos ⊢
+    split
+    · rename_i h; rw [if_pos h] at hpos; omega
+    · rfl
+  refine ⟨hn, ?_⟩
+  unfold validateN at hv
+  simp only at hv
+  by_cases hgd : ndGridLen m.grid ≠ m.ndim
+  · rw [if_pos hgd] at hv; cases hv
+  rw [if_neg hgd] at hv
+  have hgd' : ndGridLen m.grid = m.ndim := not_not.mp hgd
+  have hgl : m.grid.length = m.ndim := by
+    unfold ndGridLen at hgd'
+    cases hgrid : m.grid with
+    | nil => rw [hgrid] at hgd'; simp only at hgd'; omega
+    | cons g0 gr =>
+      rw [hgrid] at hgd'
+      simp only at hgd'
+      by_cases hg0 : g0.isEmpty = true
+      · rw [if_pos hg0] at hgd'; omega
+      · rw [if_neg hg0] at hgd'; exact hgd'
+  obtain ⟨_, hA, hv⟩ := Res.bind_eq_ok hv
+  obtain ⟨_, hB, hC⟩ := Res.bind_eq_ok hv
+  rw [hn] at hA hB hC
+  obtain ⟨gs, rest, e, hlen, hf⟩ := nd_checks_spec m.shape.length m.grid m.shape rfl hB hC
+  have hrest : rest = [] := by
+    have : (gs ++ rest).length = m.shape.length := by rw [← e, hgl, hn]
+    rw [List.length_append, hlen] at this
+    exact List.length_eq_zero_iff.mp (by omega)
+  have hne := ndCheckNonEmpty_spec m.shape.length m.grid hA
+  rw [List.take_of_length_le (by omega)] at hne
+  rw [hrest, List.append_nil] at e
+  rw [e] at hne ⊢
+  exact forall₂_and_left hf hne
+
+theorem interpolate_dn_eq (m : ND α) (pt : List α) (s : Strategy) :
+    Interpolator.interpolate (.dn m) pt s =
+      (Interpolator.validateInputs (.dn m) pt).bind fun _ =>
+        if s = .none ∨ s = .linear then linearN m pt else .err .strategy := rfl
+
+/-- `Interpolator::interpolate` on every N-D interpolator `InterpND::new` accepts (one-point axes, a single
+value with or without grids included), every point and every strategy: never a panic.  `hget` says the
+table holds a value at every index of its shape (true of an `ArrayD`). -/
+theorem interpolate_dn_graceful (m : ND α) (hv : validateN m = .ok ())
+    (hget : ∀ ix, List.Forall₂ (· < ·) ix m.shape → ∃ v, m.get ix = .ok v) (pt : List α) (s : Strategy) :
+    (Interpolator.interpolate (.dn m) pt s).Graceful := by
+  rw [interpolate_dn_eq, validateInputs_dn]
+  by_cases hpl : (m.ndim = 0 ∧ pt.length ≠ 0) ∨ (m.ndim ≠ 0 ∧ pt.length ≠ m.ndim)
+  · rw [if_pos hpl]; exact Res.Graceful.err _
+  rw [if_neg hpl]
+  by_cases hn0 : m.ndim = 0
+  · -- a single value: the empty point
+    have hpt : pt = [] := List.length_eq_zero_iff.mp (by
+      by_contra h; exact hpl (Or.inl ⟨hn0, h⟩))
+    subst hpt
+    rw [hn0]
+    simp only [ndInGrid, Res.ok_bind]
+    by_cases hs : s = .none ∨ s = .linear
+    · rw [if_pos hs]
+      have hprod : prod m.shape = 1 := by
+        unfold ND.ndim at hn0
+        by_contra h
+        rw [if_neg h] at hn0
+        have : m.shape = [] := List.length_eq_zero_iff.mp hn0
+        rw [this] at h; exact h rfl
+      obtain ⟨v, hv'⟩ := hget _ (prod_one_in_range m.shape hprod)
+      unfold linearN
+      simp only [hn0, ndPlan, Res.ok_bind, ndViewLen, if_true, ndFirstIndex, List.nil_append, List.length_nil,
+        Nat.sub_zero, hv']
+      exact Res.Graceful.ok _
+    · rw [if_neg hs]; exact Res.Graceful.err _
+  · obtain ⟨hn, hax⟩ := validateN_axes m hv (by omega)
+    have hlen : m.grid.length = m.shape.length := hax.length_eq
+    have hptl : pt.length = m.grid.length := by
+      by_contra h
+      apply hpl; right
+      exact ⟨hn0, by omega⟩
+    have hne : ∀ g ∈ m.grid, g ≠ [] := by
+      intro g hg
+      obtain ⟨_, _, h, _⟩ := forall₂_mem_left hax hg
+      exact h
+    by_cases hp : List.Forall₂ InAxis m.grid pt
+    · have hin : ndInGrid m.ndim m.grid pt = .ok () := by
+        rw [hn, ← hlen]; exact ndInGrid_ok m.grid pt hp
+      rw [hin, Res.ok_bind]
+      by_cases hs : s = .none ∨ s = .linear
+      · rw [if_pos hs]; exact linearN_graceful m pt hn hax hget hp
+      · rw [if_neg hs]; exact Res.Graceful.err _
+    · have hin : ndInGrid m.ndim m.grid pt = .err .outside := by
+        rw [hn, ← hlen]; exact ndInGrid_err m.grid pt hne hptl.symm hp
+      rw [hin]; exact Res.Graceful.err _
+
+/-! ### `load_prediction_model`: every model type, nested interpolation included -/
+
+/-- every model `new` returns answers every input -/
+theorem new_predict_total (underlying : α → α → α) (su : SpeedUnit) (s0 s1 : α) (sb : Nat) (gu : GradeUnit)
+    (g0 g1 : α) (gb : Nat) (ru : EnergyRateUnit) (m : SpeedGradeModel α)
+    (hnew : SpeedGradeModel.new underlying su s0 s1 sb gu g0 g1 gb ru = .ok m)
+    (speed : α) (qsu : SpeedUnit) (grade : α) (qgu : GradeUnit) :
+    ∃ v, m.predict speed qsu grade qgu = .ok (v, ru) := by
+  obtain ⟨xs, ys, _, _, hm, sxs, sys, lx, ly, hsb, hgb⟩ := new_inv underlying su s0 s1 sb gu g0 g1 gb ru m hnew
+  subst hm
+  obtain ⟨_, _, _, _, _, _, hp⟩ := predict_spec xs ys (sgTable underlying ru xs ys) su gu ru ⟨sxs, by omega⟩
+    ⟨sys, by omega⟩ (sgTable_rect _ _ _ _) speed qsu grade qgu
+  exact ⟨_, hp⟩
+
+/-- the rate a prediction model gives at a speed and grade in the given units (loaded models always
+answer — `loaded_spec` — so the default is never used) -/
+def rateOf (p : PModel α) (su : SpeedUnit) (gu : GradeUnit) : α → α → α :=
+  fun s g => match p s su g gu with
+    | .ok (v, _) => v
+    | _ => zero
+
+theorem rateOf_smartcore (rf : α → α → α) (su : SpeedUnit) (gu : GradeUnit) (ru : EnergyRateUnit) :
+    rateOf (smartcorePredict rf su gu ru) su gu = rf := by
+  funext s g
+  simp [rateOf, smartcorePredict, speed_convert_self, grade_convert_self]
+
+/-- the `Interpolate` arm over *any* underlying model type that loaded: it is
+`InterpolationSpeedGradeModel::new` over the underlying record's rates, with the configured bounds and bins -/
+theorem load_interpolate_eq (rf : α → α → α) (u : ModelType α) (su : SpeedUnit) (gu : GradeUnit)
+    (ru : EnergyRateUnit) (s0 s1 : α) (sb : Nat) (g0 g1 : α) (gb : Nat) (ideal adj : Option α)
+    (urec : Record α) (hu : loadPredictionModel rf true u su gu ru none none = .ok urec)
+    (htot : ∀ s qsu g qgu, ∃ v, urec.model s qsu g qgu = .ok (v, ru))
+    (hadj : urec.realWorldEnergyAdjustment = one) (hru : urec.energyRateUnit = ru) :
+    loadPredictionModel rf true (.interpolate u s0 s1 sb g0 g1 gb) su gu ru ideal adj =
+      (SpeedGradeModel.new (rateOf urec.model su gu) su s0 s1 sb gu g0 g1 gb ru).bind fun m =>
+        (match ideal with
+         | some x => (.ok x : Res α)
+         | none => findMinEnergyRate m.predict).bind fun idealRate =>
+          .ok { model := m.predict, speedUnit := su, gradeUnit := gu, energyRateUnit := ru,
+                idealEnergyRate := idealRate,
+                realWorldEnergyAdjustment := match adj with | some a => a | none => one } := by
+  obtain ⟨xs, hx⟩ := linspace_ok s0 s1 sb
+  obtain ⟨ys, hy⟩ := linspace_ok g0 g1 gb
+  have hfun : (fun (s g : α) =>
+      (urec.predict s su g gu (one : α) ru.associatedDistanceUnit).bind fun e => (.ok e.1 : Res α))
+      = fun s g => .ok ((createEnergy (rateOf urec.model su gu s g * one) ru (one : α) ru.associatedDistanceUnit).1) := by
+    funext s g
+    obtain ⟨v, hv⟩ := htot s su g gu
+    simp [Record.predict, hv, rateOf, hadj, hru, Res.bind]
+  unfold loadPredictionModel
+  simp only [hu, Res.ok_bind, hx, hy]
+  rw [hfun, fillGrid_pure]
+  unfold SpeedGradeModel.new gridValue
+  simp only [hx, hy, Res.ok_bind]
+  cases hval : validate2 xs ys
+    (List.map (fun s => List.map (fun g =>
+      (createEnergy (rateOf urec.model su gu s g * one) ru (one : α) ru.associatedDistanceUnit).1) ys) xs) <;> rfl
+
+/-- every record `load_prediction_model` returns, whatever the (nested) model type: its model answers
+every input with a rate in the configured unit, and it carries the configured units and adjustment -/
+theorem loaded_spec (rf : α → α → α) : ∀ (mt : ModelType α) (su : SpeedUnit) (gu : GradeUnit)
+    (ru : EnergyRateUnit) (ideal adj : Option α) (r : Record α),
+    loadPredictionModel rf true mt su gu ru ideal adj = .ok r →
+    (∀ s qsu g qgu, ∃ v, r.model s qsu g qgu = .ok (v, ru)) ∧ r.speedUnit = su ∧ r.gradeUnit = gu ∧
+      r.energyRateUnit = ru ∧ r.realWorldEnergyAdjustment = (match adj with | some a => a | none => one) := by
+  intro mt
+  induction mt with
+  | smartcore =>
+    intro su gu ru ideal adj r h
+    rw [load_smartcore_eq] at h
+    obtain ⟨i, _, h⟩ := Res.bind_eq_ok h
+    cases h
+    exact ⟨fun s qsu g qgu => ⟨_, rfl⟩, rfl, rfl, rfl, rfl⟩
+  | onnx =>
+    intro su gu ru ideal adj r h
+    rw [load_onnx rf true .onnx rfl] at h; cases h
+  | interpolate u s0 s1 sb g0 g1 gb ih =>
+    intro su gu ru ideal adj r h
+    cases hu : loadPredictionModel rf true u su gu ru none none with
+    | ok urec =>
+      obtain ⟨htot, _, _, hru, hadj⟩ := ih su gu ru none none urec hu
+      rw [load_interpolate_eq rf u su gu ru s0 s1 sb g0 g1 gb ideal adj urec hu htot hadj hru] at h
+      obtain ⟨m, hm, h⟩ := Res.bind_eq_ok h
+      obtain ⟨i, _, h⟩ := Res.bind_eq_ok h
+      cases h
+      refine ⟨?_, rfl, rfl, rfl, rfl⟩
+      intro s qsu g qgu
+      exact new_predict_total (rateOf urec.model su gu) su s0 s1 sb gu g0 g1 gb ru m hm s qsu g qgu
+    | err e => unfold loadPredictionModel at h; simp only [hu, Res.err_bind] at h; cases h
+    | panic st => unfold loadPredictionModel at h; simp only [hu] at h; cases h
+    | diverges => unfold loadPredictionModel at h; simp only [hu] at h; cases h
+
+/-- N-D rejection from what the constructor establishes alone (one-point axes allowed, no hypothesis on
+the table) -/
+theorem interpolate_dn_out_constructed (m : ND α) (hv : validateN m = .ok ()) (hpos : 0 < m.ndim)
+    (pt : List α) (s : Strategy) (hl : pt.length = m.ndim) (hp : ¬ List.Forall₂ InAxis m.grid pt) :
+    Interpolator.interpolate (.dn m) pt s = .err .outside := by
+  obtain ⟨hn, hax⟩ := validateN_axes m hv hpos
+  have hlen : m.grid.length = m.shape.length := hax.length_eq
+  have hne : ∀ g ∈ m.grid, g ≠ [] := by
+    intro g hg
+    obtain ⟨_, _, h, _⟩ := forall₂_mem_left hax hg
+    exact h
+  have hpl : ¬ ((m.ndim = 0 ∧ pt.length ≠ 0) ∨ (m.ndim ≠ 0 ∧ pt.length ≠ m.ndim)) := by omega
+  have hin : ndInGrid m.ndim m.grid pt = .err .outside := by
+    rw [hn, ← hlen]; exact ndInGrid_err m.grid pt hne (by omega) hp
+  rw [interpolate_dn_eq, validateInputs_dn, if_neg hpl, hin]
+  rfl
 
 end
 end Interp
